@@ -331,4 +331,22 @@ def simStep (H : Bytes → Str) (reps : Array SimRep) (line : JVal) : Array SimR
         else (reps, S "MISMATCH unknown primitive " ++ prim)
   | _ => (reps, S "MISMATCH bad line")
 
+/-- `probe`: a fresh replica opened on a complete store given in the line (`store`), typically a DAMAGED copy of
+    a replica's storage (C10).  Answered by the `new` primitive on a scratch replica; the replicas of the
+    history are untouched.  When the implementation reported an error nothing is compared (the property allows
+    an error on damaged storage). -/
+def simStepP (H : Bytes → Str) (reps : Array SimRep) (line : JVal) : Array SimRep × Str :=
+  match line with
+  | .obj o =>
+    if (objGet (S "p") o).bind JVal.asStr? = some (S "probe") then
+      let r := ((objGet (S "r") o).bind asNat?).getD 0
+      let cap := match reps[r]? with | some rep => rep.d.acache.cap | none => 16
+      if (objGet (S "res") o).bind JVal.asStr? = some (S "err") then (reps, S "ok-err")
+      else
+        let store := (objGet (S "store") o).getD (.obj [])
+        let line' := JVal.obj (objInsert (S "p") (.str (S "new")) (objInsert (S "r") (.num (S "0")) (objInsert (S "items") store o)))
+        (reps, (simStep H #[{ d := { acache := { cap := cap } } }] line').2)
+    else simStep H reps line
+  | _ => simStep H reps line
+
 end Melda
